@@ -594,6 +594,13 @@ namespace Internals {
     };
 }
 
+#ifdef TINS_VERIF_HOOKS
+namespace Internals {
+// Verification hook (guard TINS_VERIF_HOOKS), see src/pdu.cpp
+extern void (*verif_region_hook)(int, long);
+} // Internals
+#endif // TINS_VERIF_HOOKS
+
 template<typename T, typename U>
 T tins_cast(U* pdu) {
     typedef typename Internals::remove_pointer<T>::type TrueT;
